@@ -218,6 +218,12 @@ class Obj:
         self.attrs = {}
 
 
+class MPair:
+    """element of a Map seen by a ranged-for: const key, the element handle itself as value"""
+    def __init__(self, first, second):
+        self.first, self.second = first, second
+
+
 class Fn:
     def __init__(self, params, block, captures=None, name="lambda"):
         self.params, self.block, self.captures, self.name = params, block, captures or {}, name
@@ -405,27 +411,24 @@ class Interp:
             args = [self.ev(a, fr) for a in x[3]]
             return self.method(obj, x[2], args)
         if k == "idx":
-            c = self.ev(x[1], fr).v
-            i = self.ev(x[2], fr).v
-            if isinstance(c, list):
-                if isinstance(i, bool) or not isinstance(i, int):
-                    raise ScriptError("eval_error")
-                if not (0 <= i < len(c)):
-                    raise ScriptError("std::out_of_range")
-                return c[i]
-            if isinstance(c, dict):
-                if not isinstance(i, str):
-                    raise ScriptError("eval_error")
-                if i not in c:
-                    raise Discard("map default insertion yields an undefined value")
-                return c[i]
-            raise ScriptError("eval_error")
+            return self.ev_idx(x, fr)
         if k == "vec":
             return Box([Box(clone(self.ev(a, fr).v)) for a in x[1]])
         if k == "map":
-            return Box({kk: Box(clone(self.ev(v, fr).v)) for kk, v in x[1]})
+            d = {}
+            for kk, v in x[1]:
+                b = Box(clone(self.ev(v, fr).v))     # every value is evaluated, in order
+                if kk not in d:                      # std::map::insert: the first of two equal keys stays
+                    d[kk] = b
+            return Box(d)
         if k == "attr":
             o = self.ev(x[1], fr).v
+            if isinstance(o, MPair):
+                if x[2] == "first":
+                    return Box(o.first, True)
+                if x[2] == "second":
+                    return o.second
+                raise ScriptError("eval_error")
             if not isinstance(o, Obj) or x[2] not in o.attrs:
                 raise ScriptError("eval_error")
             return o.attrs[x[2]]
@@ -447,6 +450,25 @@ class Interp:
                 raise ScriptError("eval_error")
             return Box(len(c), True)
         raise AssertionError(x)
+
+    def ev_idx(self, x, fr, create=False):
+        c = self.ev(x[1], fr).v
+        i = self.ev(x[2], fr).v
+        if isinstance(c, list):
+            if isinstance(i, bool) or not isinstance(i, int):
+                raise ScriptError("eval_error")
+            if not (0 <= i < len(c)):
+                raise ScriptError("std::out_of_range")
+            return c[i]
+        if isinstance(c, dict):
+            if not isinstance(i, str):
+                raise ScriptError("eval_error")
+            if i not in c:
+                if not create:
+                    raise Discard("map default insertion yields an undefined value")
+                c[i] = Box(None)          # `m["new"] = v`: operator[] inserts an element without a value, the assignment gives it one
+            return c[i]
+        raise ScriptError("eval_error")
 
     def truth(self, box):
         if not isinstance(box.v, bool):
@@ -604,6 +626,24 @@ class Interp:
             if mname == "size" and not args:
                 raise Discard("size_t arithmetic is outside the model")
             raise ScriptError("eval_error")
+        if isinstance(o, dict):
+            key = args[0].v if len(args) == 1 else None
+            if mname in ("count", "at", "erase") and not isinstance(key, str):
+                raise ScriptError("eval_error")
+            if mname == "count":
+                return Box(1 if key in o else 0, True)      # size_t: only ever printed
+            if mname == "at":
+                if key not in o:
+                    raise ScriptError("std::out_of_range")
+                return o[key]
+            if mname == "erase":
+                if objbox.const:
+                    raise ScriptError("eval_error")
+                o.pop(key, None)
+                return Box(VOID)                             # really a size_t: the generator never lets it be a result
+            if mname == "empty" and not args:
+                return Box(len(o) == 0, True)
+            raise ScriptError("eval_error")
         if isinstance(o, Obj):
             for mn, mparams, mbody in self.classes[o.cls][5]:
                 if mn == mname and len(mparams) == len(args):
@@ -665,7 +705,7 @@ class Interp:
             return self.globals[s[1]]
         if k == "assign":
             rhs = self.ev(s[3], fr)      # the right-hand side is evaluated first
-            lhs = self.ev(s[1], fr)
+            lhs = self.ev_idx(s[1], fr, create=(s[2] == "=")) if s[1][0] == "idx" else self.ev(s[1], fr)
             return self.assign_to(lhs, s[2], rhs.v)
         if k == "expr":
             return self.ev(s[1], fr)
@@ -719,9 +759,13 @@ class Interp:
             return Box(VOID)
         if k == "rfor":
             c = self.ev(s[2], fr).v
-            if not isinstance(c, list):
+            if isinstance(c, dict):
+                elems = [Box(MPair(kk, c[kk]), False) for kk in sorted(c)]     # std::map order; the pair's second *is* the element
+            elif isinstance(c, list):
+                elems = list(c)
+            else:
                 raise ScriptError("eval_error")
-            for elem in list(c):
+            for elem in elems:
                 self.branches += 1
                 fr.append({s[1]: elem})       # the loop variable aliases the element
                 try:
